@@ -11,9 +11,11 @@ class Unsupported(Exception):
 class SObj:
     """A record (object with named fields); mutable within one path."""
 
-    def __init__(self, cls, fields=None):
+    def __init__(self, cls, fields=None, none_if=None):
         self.cls = cls
         self.fields = dict(fields or {})
+        # optional value: z3 Bool "this value is None" (fields are meaningless when it holds)
+        self.none_if = none_if
 
     def __repr__(self):
         return f'SObj({self.cls}, {self.fields})'
